@@ -322,6 +322,51 @@ def staged_sequence(rng, tier):
             "max_interval": rat(rng.choice([0, 10, 300]))}
 
 
+def wide_sequence(rng, n_scopes=64):
+    """A section with MANY scopes (more than any display is likely to show one by one): all totals, a rendering while nothing
+    has finished, the calls with renderings in between - the first scopes finished, the last ones not begun -, the final
+    rendering.  Same format as `gen_sequence` (shape 'run': all totals of the section come first)."""
+    cache, scopes, ids = {}, [], {}
+
+    def scope_id(spec):
+        obj = build_scope(spec, cache)
+        if obj not in ids:
+            ids[obj] = len(scopes)
+            scopes.append(spec)
+        return ids[obj]
+
+    sids = []
+    while len(sids) < n_scopes:
+        sid = scope_id(gen_scope(rng, "plain"))
+        if sid not in sids:
+            sids.append(sid)
+    sec = rng.choice(["run", "stale"])
+    t = fr(0)
+    events = []
+
+    def wake():
+        nonlocal t
+        t += rng.choice([61, 100])
+        events.append(["w", rat(t), rat(t)])
+
+    def note(op, sid, amt):
+        nonlocal t
+        t += fr("1/8")
+        events.append(["n", rat(t), op, sec, sid, amt])
+
+    for sid in sids:
+        note("tot", sid, 1)
+    wake()
+    for k, sid in enumerate(sids):
+        note("run", sid, 0)
+        note("fai" if k % 17 == 5 else "com", sid, k % 6)
+        if k in (0, n_scopes // 2, n_scopes - 2):
+            wake()
+    t += 61
+    return {"shape": "run", "flavour": "plain", "scopes": scopes, "start": rat(fr(0)), "events": events,
+            "final": ["w", rat(t), rat(t)], "max_interval": rat(300)}
+
+
 def sec_id(sec, extra):
     if sec in SECTION_IDS:
         return SECTION_IDS[sec]
@@ -1278,6 +1323,23 @@ def explore(ctx, n_scale=1.0, monitors_only=False):
         for i in range(max(6, n_seq // 8)):
             seq = staged_sequence(rng_st, ctx.tier)
             by_shape["staged"] = by_shape.get("staged", 0) + 1
+            for kind in KINDS:
+                v, d, info = run_deterministic(kind, seq, driver)
+                events += len(seq["events"]) + 1
+                if v:
+                    violations.append(_violation(v, kind, seq, "deterministic"))
+                if d:
+                    disagreements.append({"layer": "progress-state", "what": d, "observer": kind, "seq": seq})
+                renders += info.get("renders", 0)
+                if v or d:
+                    break
+            if violations or disagreements:
+                break
+    # a section with many scopes
+    if not violations and not disagreements:
+        for n_sc in ((64,) if quick else (51, 64, 130, 300)):
+            seq = wide_sequence(rng_st, n_sc)
+            by_shape["wide"] = by_shape.get("wide", 0) + 1
             for kind in KINDS:
                 v, d, info = run_deterministic(kind, seq, driver)
                 events += len(seq["events"]) + 1
